@@ -221,6 +221,45 @@ func decoy(o Op) (Op, bool) {
 // fields are first set to a different value and then overwritten (a packet "can
 // be built" by any setter sequence; the final state is what counts).
 func Build(a *ref.AP, t *sim.Tape) (mq.Packet, []Op, error) {
+	p, r, err := buildOn(New(a.Type), a, t, true)
+	return p, r.Ops, err
+}
+
+// Recipe is how a packet was built: where it started and the calls made on it,
+// in order. Again() makes a second packet by the very same calls - "the same
+// packet" in the sense of C11, whatever an implementation lets depend on the
+// order of setter calls.
+type Recipe struct {
+	Type                 byte
+	Origin               string // "new", "zero", "pub"
+	PubQoS               byte
+	PubTopic, PubPayload string
+	Ops                  []Op
+}
+
+func (r *Recipe) Again() (mq.Packet, error) {
+	var p mq.Packet
+	switch r.Origin {
+	case "zero":
+		p = Zero(r.Type)
+	case "pub":
+		p = mq.Pub(r.PubQoS, r.PubTopic, r.PubPayload)
+	default:
+		p = New(r.Type)
+	}
+	for _, o := range r.Ops {
+		if err := Apply(p, o); err != nil {
+			return nil, err
+		}
+	}
+	return p, nil
+}
+
+// BuildR is Build (zero=false) or BuildZero (zero=true) and also returns the recipe.
+func BuildR(a *ref.AP, t *sim.Tape, zero bool) (mq.Packet, *Recipe, error) {
+	if zero {
+		return buildOn(Zero(a.Type), a, t, false)
+	}
 	return buildOn(New(a.Type), a, t, true)
 }
 
@@ -228,7 +267,8 @@ func Build(a *ref.AP, t *sim.Tape) (mq.Packet, []Op, error) {
 // the constructor's value. What such a packet encodes to is not defined by the
 // round-trip properties; it is a legitimate receiver of read-only operations.
 func BuildZero(a *ref.AP, t *sim.Tape) (mq.Packet, []Op, error) {
-	return buildOn(Zero(a.Type), a, t, false)
+	p, r, err := buildOn(Zero(a.Type), a, t, false)
+	return p, r.Ops, err
 }
 
 // AllowWillEdit: whether Build may finish a will AFTER attaching it (through
@@ -238,12 +278,17 @@ func BuildZero(a *ref.AP, t *sim.Tape) (mq.Packet, []Op, error) {
 // checks whose subject is independent of that domain (C11, C13, C14).
 var AllowWillEdit = false
 
-func buildOn(p mq.Packet, a *ref.AP, t *sim.Tape, ctor bool) (mq.Packet, []Op, error) {
+func buildOn(p mq.Packet, a *ref.AP, t *sim.Tape, ctor bool) (mq.Packet, *Recipe, error) {
+	rec := &Recipe{Type: a.Type, Origin: "new"}
+	if !ctor {
+		rec.Origin = "zero"
+	}
 	ops := OpsFor(a)
 	if ctor && t != nil && a.Type == ref.Publish && t.Bool(1, 4) {
 		// the convenience constructor mq.Pub(qos, topic, payload) instead of
 		// NewPublish + three setters
 		p = mq.Pub(a.QoS(), string(a.Topic), string(a.Payload))
+		rec.Origin, rec.PubQoS, rec.PubTopic, rec.PubPayload = "pub", a.QoS(), string(a.Topic), string(a.Payload)
 		var rest []Op
 		for _, o := range ops {
 			if o.Kind != "qos" && o.Kind != "topic" && o.Kind != "payload" {
@@ -346,15 +391,16 @@ func buildOn(p mq.Packet, a *ref.AP, t *sim.Tape, ctor bool) (mq.Packet, []Op, e
 		}
 	}
 	peek := t != nil && t.Bool(1, 3)
+	rec.Ops = ops
 	for _, o := range ops {
 		if err := Apply(p, o); err != nil {
-			return nil, ops, err
+			return nil, rec, err
 		}
 		if peek && t.Bool(1, 3) {
 			ReadOnly(p, t.Int(ReadOnlyKinds))
 		}
 	}
-	return p, ops, nil
+	return p, rec, nil
 }
 
 type discard struct{}
